@@ -20,7 +20,13 @@ package main
 // assumption of C02/C15 is an argument outside the solver).
 
 import (
+	"fmt"
 	"math/big"
+	"os"
+	"strings"
+	"sync"
+
+	"golang.org/x/tools/go/ssa"
 )
 
 var (
@@ -30,6 +36,10 @@ var (
 	fnHmacV  = DeclFunc("hmacv", []Sort{SInt, SInt, SInt}, SInt)
 	fnCbcEnc = DeclFunc("cbcenc", []Sort{SInt, SInt, SInt}, SInt)
 	fnCbcDec = DeclFunc("cbcdec", []Sort{SInt, SInt, SInt}, SInt)
+	// prfplusv(alg, key, seed, n): what lib.PrfPlus returns for a hash object of that
+	// algorithm and key (assumed to be a function of these: justified by the proved
+	// per-iteration contract of PrfPlus, which resets the object before every block)
+	fnPrfPlusV = DeclFunc("prfplusv", []Sort{SInt, SInt, SInt, SInt}, SInt)
 )
 
 func blenT(v *Term) *Term   { return App(fnBlen, bi(0), pow48, v) }
@@ -70,11 +80,7 @@ func (ex *Exec) bytesOf(s SliceV) *Term {
 		ex.bytesCache = map[bytesKey]*Term{}
 	}
 	k := ex.byteKind()
-	cid := 0
-	if ex.cur != nil {
-		cid = ex.cur.id
-	}
-	key := bytesKey{s.Arr.id, s.Off.id, s.Len.id, len(k.log), cid}
+	key := bytesKey{s.Arr.id, s.Off.id, s.Len.id, len(k.log), 0}
 	if v, ok := ex.bytesCache[key]; ok {
 		return v
 	}
@@ -83,16 +89,20 @@ func (ex *Exec) bytesOf(s SliceV) *Term {
 		ex.bytesCache[key] = v
 		return v
 	}
+	// the definition is stated for the memory as it is now, independently of the path
+	// condition (no simplification under the current reach condition), so that the same
+	// value is shared by all branches that look at this slice in this memory state
 	v := Fresh("bv", SInt, nil, nil)
-	ex.assumeGlobal(Eq(blenT(v), s.Len))
+	saved := ex.cur
+	ex.cur = nil
+	ex.assumeAxiom(Implies(And(Le(Int(0), s.Len), Le(s.Len, IntB(pow48))), Eq(blenT(v), s.Len)))
 	j := BoundVar("j", nil, nil)
 	rd := ex.mem.Read(k, s.Arr, Add(s.Off, j), -1)
+	ex.cur = saved
 	body := Implies(And(Le(Int(0), j), Lt(j, s.Len)), Eq(batT(v, j), rd))
-	if ex.cur != nil && !ex.cur.IsTrue() {
-		body = Implies(ex.cur, body)
-	}
 	ex.assumeAxiom(ForallPat(body, batT(v, j)))
 	ex.bytesCache[key] = v
+	ex.noteLen(v, s.Len)
 	return v
 }
 
@@ -130,13 +140,21 @@ func (ex *Exec) bcat(a, b *Term) *Term {
 	if a == bEmptyT && bEmptyT != nil {
 		return b
 	}
-	c := App(fnBcat, nil, nil, a, b)
-	if ex.hypSeen[-c.id-1] {
+	app := App(fnBcat, nil, nil, a, b)
+	if ex.bcatNames == nil {
+		ex.bcatNames = map[int]*Term{}
+	}
+	if c, ok := ex.bcatNames[app.id]; ok {
 		return c
 	}
-	ex.hypSeen[-c.id-1] = true
+	// a named constant stands for the concatenation (triggers must not contain ite /
+	// boolean structure); the equation keeps congruence over bcat available
+	c := Fresh("bc", SInt, nil, nil)
+	ex.bcatNames[app.id] = c
+	ex.assumeAxiom(Eq(c, app))
 	la, lb := blenT(a), blenT(b)
 	ex.assumeAxiom(Eq(blenT(c), Add(la, lb)))
+	ex.noteLen(c, Add(ex.lenOf(a), ex.lenOf(b)))
 	j := BoundVar("j", nil, nil)
 	ex.assumeAxiom(ForallPat(Implies(And(Le(Int(0), j), Lt(j, la)), Eq(batT(c, j), batT(a, j))), batT(c, j)))
 	k := BoundVar("k", nil, nil)
@@ -158,13 +176,116 @@ func (ex *Exec) extCandidate(class string, v *Term) {
 		return
 	}
 	ex.extSeen[class][v.id] = true
+	if ex.extOrigin == nil {
+		ex.extOrigin = map[int]bool{}
+	}
+	inCode := ex.inRepoCode()
+	ex.extOrigin[v.id] = inCode
+	type pair struct {
+		p, clause, eq *Term
+		q         string
+		ok        bool
+	}
+	var ps []*pair
 	for _, p := range ex.extList[class] {
+		if Eq(v, p).IsTrue() {
+			continue
+		}
 		d := Fresh("extd", SInt, nil, nil)
-		ex.assumeAxiom(Or(Eq(v, p), Ne(blenT(v), blenT(p)),
-			And(Le(Int(0), d), Lt(d, blenT(v)), Ne(batT(v, d), batT(p, d)))))
+		clause := Or(Eq(v, p), Ne(blenT(v), blenT(p)),
+			And(Le(Int(0), d), Lt(d, blenT(v)), Ne(batT(v, d), batT(p, d))))
+		pr := &pair{p: p, clause: clause, eq: Eq(v, p)}
+		// keys made by the code under verification are compared with the keys of the
+		// reference computation in the lemma, not with one another
+		skipCut := class == "key" && inCode && ex.extOrigin[p.id]
+		if !noCuts && !skipCut {
+			pr.q = ex.cutQuery(pr.eq, clause)
+			if traceCuts {
+				cutDump++
+				os.WriteFile(fmt.Sprintf("/tmp/cut_%d.smt2", cutDump), []byte("; goal "+pr.eq.StringLimit(300)+"\n"+pr.q), 0o644)
+			}
+		}
+		ps = append(ps, pr)
+	}
+	// cuts: pairs that are provably equal here and now are recorded as equalities
+	// (later proofs then go by congruence instead of re-deriving them); the queries
+	// of one candidate are independent and run concurrently
+	if !noCuts && len(ps) > 0 {
+		var wg sync.WaitGroup
+		sem := make(chan bool, 8)
+		for _, pr := range ps {
+			if pr.q == "" {
+				continue
+			}
+			wg.Add(1)
+			go func(pr *pair) {
+				defer wg.Done()
+				sem <- true
+				defer func() { <-sem }()
+				r := runSolver(solvers[0], pr.q, cutTimeoutMs)
+				pr.ok = r.status == "unsat"
+				if traceCuts {
+					fmt.Fprintf(os.Stderr, "CUT %s %dms qlen=%d class=%s %s\n", r.status, r.millis, len(pr.q), class, pr.eq.StringLimit(160))
+				}
+			}(pr)
+		}
+		wg.Wait()
+	}
+	// second chance with a longer budget for the pairs whose lengths are the same term
+	// (copies of one another, typically)
+	found := false
+	for _, pr := range ps {
+		found = found || pr.ok
+	}
+	if !noCuts && !found {
+		var wg sync.WaitGroup
+		sem := make(chan bool, 8)
+		for _, pr := range ps {
+			if pr.ok || pr.q == "" || ex.lenOf(v) != ex.lenOf(pr.p) {
+				continue
+			}
+			wg.Add(1)
+			go func(pr *pair) {
+				defer wg.Done()
+				sem <- true
+				defer func() { <-sem }()
+				r := runSolver(solvers[0], pr.q, cutTimeoutMs*8)
+				pr.ok = r.status == "unsat"
+				if traceCuts {
+					fmt.Fprintf(os.Stderr, "CUT2 %s %dms qlen=%d class=%s %s\n", r.status, r.millis, len(pr.q), class, pr.eq.StringLimit(160))
+				}
+			}(pr)
+		}
+		wg.Wait()
+	}
+	for _, pr := range ps {
+		ex.cutsTried++
+		if pr.ok {
+			ex.assumeGlobal(pr.eq)
+			ex.cutsProved++
+		} else {
+			ex.assumeAxiom(pr.clause)
+		}
 	}
 	ex.extList[class] = append(ex.extList[class], v)
 }
+
+// cutQuery: "hyps so far, extra and the current reach condition entail goal" as a
+// satisfiability query of the negation.
+func (ex *Exec) cutQuery(goal, extra *Term) string {
+	ng := Not(goal)
+	if ex.cur != nil && !ex.cur.IsTrue() {
+		ng = And(ex.cur, ng)
+	}
+	asserts := relevantHyps(ex.hyps, And(ng, extra))
+	asserts = append(asserts, extra, ng)
+	return RenderQuery(asserts, nil, ex.quant, "", false)
+}
+
+var cutDump int
+var traceCuts = os.Getenv("IKEVERIF_TRACECUTS") != ""
+var noCuts = os.Getenv("IKEVERIF_NOCUTS") != ""
+var cutTimeoutMs = envInt("IKEVERIF_CUTMS", 1500)
 
 type cbcUse struct {
 	enc          bool
@@ -194,6 +315,7 @@ func (ex *Exec) installBytesLayer() {
 		ex.extCandidate("key", key)
 		d := App(fnHmacV, nil, nil, alg, key, msg)
 		ex.assumeAxiom(Eq(blenT(d), size))
+		ex.noteLen(d, size)
 		return ex.bytesRef(d, size)
 	}
 	ex.aesNewHook = func(reach, ref *Term, key SliceV) {
@@ -232,6 +354,7 @@ func (ex *Exec) installBytesLayer() {
 			}
 		}
 		ex.assumeAxiom(Eq(blenT(out), blenT(dat)))
+		ex.noteLen(out, ex.lenOf(dat))
 		ex.cbcUses = append(ex.cbcUses, cbcUse{enc: dc == 1, key: key, iv: iv, dat: dat, out: out})
 		// (a block mode is used for one CryptBlocks call in this library; chaining state
 		// across calls is not modelled)
@@ -242,4 +365,78 @@ func (ex *Exec) installBytesLayer() {
 	}
 }
 
+// prfPlusSpec implements the intrinsic verifPrfPlusSpec(prf, s, n).
+func (ex *Exec) prfPlusSpec(recv IfaceV, seed SliceV, n *Term) SliceV {
+	ref := ex.boxData(recv)
+	key := ex.gread("hmac.key", ref)
+	alg := ex.gread("hmac.alg", ref)
+	sv := ex.bytesOf(seed)
+	ex.extCandidate("key", key)
+	ex.extCandidate("seed", sv)
+	v := App(fnPrfPlusV, nil, nil, alg, key, sv, n)
+	ex.assumeAxiom(Implies(Ge(n, Int(0)), Eq(blenT(v), n)))
+	ex.noteLen(v, n)
+	return SliceV{Arr: ex.bytesRef(v, n), Off: Int(0), Len: n, Cap: n, Elem: seed.Elem}
+}
+
 var _ = big.NewInt
+
+func (ex *Exec) noteLen(v, n *Term) {
+	if ex.lens == nil {
+		ex.lens = map[int]*Term{}
+	}
+	ex.lens[v.id] = n
+}
+
+// lenOf: the length term recorded for value v (blen(v) itself if none).
+func (ex *Exec) lenOf(v *Term) *Term {
+	if n, ok := ex.lens[v.id]; ok {
+		return n
+	}
+	if v == bEmptyT {
+		return Int(0)
+	}
+	return blenT(v)
+}
+
+// inRepoCode: the instruction being executed belongs to a function of the repository
+// (as opposed to a lemma / specification function of the overlay).
+func (ex *Exec) inRepoCode() bool {
+	for i := len(ex.fnStack) - 1; i >= 0; i-- {
+		n := ex.fnStack[i]
+		if j := strings.LastIndex(n, "."); j >= 0 {
+			n = n[j+1:]
+		}
+		if strings.HasPrefix(n, "lemma_") || strings.HasPrefix(n, "verif") || strings.HasPrefix(n, "contract_") || strings.HasPrefix(n, "step_") || strings.HasPrefix(n, "inv_") {
+			return false
+		}
+		return true
+	}
+	return false
+}
+
+// nativeSummaries: contracts of repository functions applied at call sites in the
+// engine's own terms (the Go text of each contract is in /verif/contracts, marked
+// ASSUMED; the definitional form below avoids quantified post-conditions).
+var nativeSummaries = map[string]externFn{
+	// lib.PrfPlus(prf, s, n): requires prf != nil, n >= 0; the result is a fresh slice of
+	// n octets holding prfplusv(alg, key, s, n); the hash object's buffer is left in an
+	// unspecified state
+	"security/lib.PrfPlus": func(ex *Exec, f *Frame, call *ssa.Call, args []Value, reach *Term) (Value, *Term) {
+		ex.usedModel("ASSUMED contract of security/lib.PrfPlus: result = fresh n octets, a function of (hash algorithm, key of the hash object, seed, n) only (justified by its proved per-iteration contract, contracts/security/lib/c07.go)")
+		recv := args[0].(IfaceV)
+		seed := args[1].(SliceV)
+		n := args[2].(*Term)
+		what := ex.exprText(call.Pos(), "call")
+		ex.oblige("pre", "security/lib.PrfPlus:prf != nil:"+what, reach, Ne(recv.Tag, Int(0)))
+		ex.oblige("pre", "security/lib.PrfPlus:streamLen >= 0:"+what, reach, Ge(n, Int(0)))
+		spec := ex.prfPlusSpec(recv, seed, n)
+		// a fresh array holding a copy
+		ref := ex.newObj()
+		k := ex.byteKind()
+		ex.mem.push(k, MemEntry{typ: eZero, guard: reach, ref: ref})
+		ex.mem.Copy(k, reach, ref, Int(0), n, spec.Arr, Int(0))
+		ex.gwrite("hmac.buf", reach, ex.boxData(recv), Fresh("hmac.buf.after.prfplus", SInt, nil, nil))
+		return SliceV{Arr: ref, Off: Int(0), Len: n, Cap: n, Elem: seed.Elem}, reach
+	},
+}
